@@ -22,9 +22,97 @@ RULE = (
 	'schema text / (schema, type, value) / (schema, type, mutant).')
 TRUSTED_BASE = c01.TRUSTED_BASE + [
 	'the emitted Python text is tied to the interpreter by execution only (no formal Python semantics)',
-	'schemas are limited to what harness/schemagen.py produces; constructs it never emits are listed in DESIGN.md',
+	'schemas are limited to what harness/schemagen.py produces; constructs it never emits are listed in DESIGN.md; arrays with a literal count are outside the IR and are evaluated directly against a hand-written layout (no model)',
 ]
 ASSUMPTIONS = c01.ASSUMPTIONS
+
+
+LITERAL_COUNT_SCHEMA = """using Amount = uint64
+
+struct Item
+\tident = Amount
+\tother = uint8
+
+struct Fixed
+\ttag = uint8
+\t@sort_key(ident)
+\titems = array(Item, 3)
+
+struct FixedPlain
+\titems = array(Item, 2)
+\ttail = uint16
+"""
+
+
+def literal_count_arrays(ctx, package, scratch):
+	"""Arrays with a literal element count (used by the shipped state schemas, not expressible in the IR): the generated code is
+	evaluated directly against the schema, written out by hand - layout, round trip, and the sort key on encode and decode."""
+	import itertools
+	path = os.path.join(scratch, 'literal_count.cats')
+	with open(path, 'wt', encoding='utf8') as outfile:
+		outfile.write(LITERAL_COUNT_SCHEMA)
+	module, proc = package.generate('literal_count', path, scratch)
+	if module is None:
+		ctx.fail('property', 'the generator does not compile a schema with literal-count arrays', {'schema': LITERAL_COUNT_SCHEMA, 'stderr': proc.stderr[-400:]})
+		return
+
+	def item(ident, other):
+		element = module.Item()
+		element.ident = module.Amount(ident)
+		element.other = other
+		return element
+
+	def encoding(tag, entries, tail=None):
+		body = b''.join(ident.to_bytes(8, 'little') + bytes([other]) for ident, other in entries)
+		return (bytes([tag]) if tag is not None else b'') + body + (tail.to_bytes(2, 'little') if tail is not None else b'')
+
+	rng = ctx.rng
+	for keys in ([1, 5, 8], [0, 1, (1 << 64) - 1], [255, 256, 257], [rng.randrange(1 << 64) for _ in range(3)]):
+		distinct = len(set(keys)) == len(keys)
+		for order in itertools.permutations(keys):
+			entries = [(ident, index) for index, ident in enumerate(order)]
+			ascending = distinct and list(order) == sorted(order)
+			ident = {'schema': 'literal-count', 'type': 'Fixed', 'keys': [str(key) for key in order]}
+			ctx.case(('literal-count', tuple(order)), ident if ascending else None)
+			ctx.count('literal-count:' + ('ascending' if ascending else 'not-ascending'))
+			value = module.Fixed()
+			value.tag = 7
+			value.items = [item(*entry) for entry in entries]
+			expected = encoding(7, entries)
+			try:
+				produced = bytes(value.serialize())
+			except Exception as ex:  # pylint: disable=broad-except
+				produced = None
+				if ascending:
+					ctx.fail('property', f'literal-count array: an ascending array is refused by serialize() ({type(ex).__name__})', ident)
+			if produced is not None:
+				if not ascending:
+					ctx.fail('property', 'literal-count array with a sort key: serialize() accepts an out-of-order array', ident)
+				elif produced != expected or value.size != len(expected):
+					ctx.fail('property', 'literal-count array: encoding or size differs from the layout the schema prescribes', dict(ident, produced=produced.hex(), expected=expected.hex()))
+			try:
+				decoded = module.Fixed.deserialize(expected)
+				accepted = True
+			except Exception:  # pylint: disable=broad-except
+				accepted = False
+			if ascending and not (accepted and bytes(decoded.serialize()) == expected and [entry.ident.value for entry in decoded.items] == list(order)):
+				ctx.fail('property', 'literal-count array: the canonical encoding does not decode to the value', ident)
+			if not ascending and accepted:
+				ctx.fail('property', 'literal-count array with a sort key: deserialize() accepts out-of-order bytes', ident)
+			value.sort()
+			try:
+				if distinct and bytes(value.serialize()) != encoding(7, sorted(entries)):
+					ctx.fail('property', 'literal-count array: sort() then serialize() is not the canonical encoding', ident)
+			except Exception as ex:  # pylint: disable=broad-except
+				if distinct:
+					ctx.fail('property', f'literal-count array: the sorted value is refused by serialize() ({type(ex).__name__})', ident)
+	plain = module.FixedPlain()
+	plain.items = [item(9, 1), item(3, 2)]
+	plain.tail = 0x0102
+	expected = encoding(None, [(9, 1), (3, 2)], 0x0102)
+	ctx.count('literal-count:plain')
+	if bytes(plain.serialize()) != expected or plain.size != len(expected) or bytes(module.FixedPlain.deserialize(expected + b'\xff').serialize()) != expected:
+		ctx.fail('property', 'literal-count array without a sort key: layout / size / round trip with trailing bytes differs from the schema', {'expected': expected.hex()})
 
 
 def run(ctx):
@@ -33,6 +121,10 @@ def run(ctx):
 	scratch = ctx.tmpdir()
 	run_id = len(os.listdir(scratch))
 	package = genmod.ScratchPackage(scratch, f'scratch_c15_{os.getpid()}_{run_id}')
+	try:
+		literal_count_arrays(ctx, package, scratch)
+	except Exception as ex:  # pylint: disable=broad-except
+		ctx.fail('property', f'generated code for literal-count arrays raises {type(ex).__name__}: {ex}', {'schema': LITERAL_COUNT_SCHEMA})
 	body_driver = None
 	try:
 		body_driver = common.Driver('c03')
